@@ -28,11 +28,19 @@ def classify_exception(exc):
     best = None
     for e in chain:  # outermost first; the original error is last and wins if it reaches into the repository
         last = None
-        for fr in traceback.extract_tb(e.__traceback__):
+        frames = traceback.extract_tb(e.__traceback__)
+        for fr in frames:
             if env.in_repo(fr.filename):
                 last = ("repo", fr)
             elif fr.filename.startswith(env.VERIF):
                 last = ("harness", fr)
+        # OpenMDAO refusing (set-up) or failing (run) a model that the zoo assembled from the repository's groups: the zoo's own
+        # wiring is exercised on every case of the unchanged tree, so on an admissible generated configuration this is the
+        # repository's model failing, not the harness
+        if (last is not None and last[0] == "harness" and os.path.basename(last[1].filename) == "zoo.py"
+                and last[1].name in ("build_aero", "build_as", "build_struct", "build_geom", "run") and frames
+                and (os.sep + "openmdao" + os.sep) in frames[-1].filename):
+            last = ("repo", last[1])
         if last is not None and (best is None or last[0] == "repo"):
             best = last
     if best is None:
